@@ -139,7 +139,8 @@ func (d *tDecoder) Decode(b []byte, base unsafe.Pointer, sd *structDesc, maxdept
 	}
 	for _, fid := range sd.requiredFieldIDs {
 		if !bs.test(fid) {
-			return i, newRequiredFieldNotSetException(lookupFieldName(sd.rt, sd.GetField(fid).Offset))
+			f := sd.GetField(fid)
+			return i, newRequiredFieldNotSetException(lookupFieldName(sd.rt, f.Offset, f.Type.RT))
 		}
 	}
 	if ufs != nil && ufs.Size() > 0 {
